@@ -42,11 +42,11 @@ def strip_comments(text: str) -> str:
 
 
 def load_theorems(prop):
-    with open(os.path.join(ROOT, "THEOREMS.json")) as fh:
-        idx = json.load(fh)
-    if prop not in idx:
-        raise SystemExit(f"{prop}: not in THEOREMS.json")
-    return idx[prop]
+    path = os.path.join(ROOT, "theorems", f"{prop}.json")
+    if not os.path.exists(path):
+        raise SystemExit(f"{prop}: no theorems/{prop}.json")
+    with open(path) as fh:
+        return json.load(fh)
 
 
 def load_known(prop):
@@ -106,6 +106,8 @@ def main(argv):
             if m and (m.group(1) in spec.get("gen_units", []) or not spec.get("gen_units")):
                 breaks.append(("T", f"Gen.{m.group(1)}: {m.group(2)}"))
         log.append(("gen", rc, out[-2000:]))
+        _, doms_out = sh([sys.executable, os.path.join(ROOT, "tools", "mkdriver.py")], timeout=60)
+        domains = dict(x.split(":") for x in doms_out.split())
         # ---------------------------------------------------------------- audit file
         names = [t["name"] for t in spec["theorems"]]
         audit_rel = os.path.join("SecsModel", "Audit", f"{prop}.lean")
@@ -135,8 +137,14 @@ def main(argv):
             breaks.append(("P", "; ".join(broken_thms[:6])))
         rc_d, out_d = sh(["lake", "build", "driver"], cwd=LEAN, timeout=3000)
         if rc_d != 0:
-            errs = re.findall(r"error: (\S+\.lean:\d+:\d+: .*)", out_d)
-            breaks.append(("P", "model driver does not build: " + "; ".join(e[:160] for e in errs[:4])))
+            # leave out the domains whose model no longer builds; only this property's own domains count against it
+            bad = [w for w, mod in domains.items() if sh(["lake", "build", f"SecsModel.Drv.{mod}"], cwd=LEAN, timeout=3000)[0] != 0]
+            sh([sys.executable, os.path.join(ROOT, "tools", "mkdriver.py")] + bad, timeout=60)
+            rc_d2, out_d2 = sh(["lake", "build", "driver"], cwd=LEAN, timeout=3000)
+            mine = [w for w in bad if w in spec.get("driver_domains", [])]
+            if mine or rc_d2 != 0:
+                errs = re.findall(r"error: (\S+\.lean:\d+:\d+: .*)", out_d)
+                breaks.append(("P", f"model driver domain(s) {mine or bad} do not build: " + "; ".join(e[:160] for e in errs[:4])))
         log.append(("build", rc_p, out_p[-3000:]))
         # ---------------------------------------------------------------- A
         axioms = {}
